@@ -11,10 +11,10 @@ EXTENDS Patch, Json
 
 CONSTANTS MaxPatchLen, MaxActs
 
-VARIABLES patch, route, hist
-vars == <<patch, route, hist>>
+VARIABLES patch, route, built, hist
+vars == <<patch, route, built, hist>>
 
-A == <<97>>  X == <<120>>  Y == <<121>>  Z == <<122>>  W == <<119>>  R == <<97, 114, 114>>  N0 == <<48>>  N9 == <<57>>  N1 == <<49>>
+A == <<97>>  X == <<120>>  Y == <<121>>  Z == <<122>>  W == <<119>>  O == <<111>>  R == <<97, 114, 114>>  N0 == <<48>>  N9 == <<57>>  N1 == <<49>>
 
 VObj == Obj(<<A>>, <<Arr(<<IntV(1)>>)>>)
 VArr == Arr(<<Arr(<<>>), IntV(0)>>)
@@ -30,35 +30,54 @@ OpPool == {
   MkOp("remove", <<X>>, <<>>, Null),         MkOp("copy", <<Z>>, <<X>>, Null),
   MkOp("add", <<Z, A, Dash>>, <<>>, IntV(3)), MkOp("move", <<W>>, <<X>>, Null),
   MkOp("test", <<X>>, <<>>, VObj),           MkOp("add", <<R, Dash>>, <<>>, VObj),
-  MkOp("add", <<R, N0, A, Dash>>, <<>>, IntV(4)) }
+  MkOp("add", <<R, N0, A, Dash>>, <<>>, IntV(4)),
+  \* member names that look like integers
+  MkOp("addne", <<O, N1>>, <<>>, IntV(5)),   MkOp("addne", <<O, N9>>, <<>>, VArr),
+  MkOp("add", <<O, N1>>, <<>>, VObj),        MkOp("add", <<O, N1, A, Dash>>, <<>>, IntV(6)),
+  MkOp("replace", <<O, N0>>, <<>>, IntV(7)), MkOp("remove", <<O, N1>>, <<>>, Null) }
 
 Docs == { Obj(<<R>>, <<Arr(<<IntV(1), IntV(2)>>)>>),
           Obj(<<X, R>>, <<Obj(<<A>>, <<Arr(<<>>)>>), Arr(<<Obj(<<A>>, <<Arr(<<>>)>>)>>)>>),
-          Obj(<<X, Y, R>>, <<Arr(<<Arr(<<IntV(9)>>)>>), IntV(0), Arr(<<>>)>>) }
+          Obj(<<X, Y, R>>, <<Arr(<<Arr(<<IntV(9)>>)>>), IntV(0), Arr(<<>>)>>),
+          Obj(<<O, R>>, <<Obj(<<N1, N0>>, <<IntV(1), Arr(<<>>)>>), Arr(<<IntV(0)>>)>>) }
 Routes == {"document", "builder", "asdicts"}
 
 \* what printing the patch must give: the operations it was built from
 Dicts(p) == [i \in 1..Len(p) |-> [op |-> p[i].op, path |-> PrintPtr(p[i].path), from |-> PrintPtr(p[i].from), value |-> p[i].value]]
 
+\* the part of the patch that has been built so far (the builder route adds one
+\* operation per AddOp step; the other routes construct the whole patch at once)
+Cur == SubSeq(patch, 1, built)
+
 Init == /\ patch \in {s \in SeqsUpTo(OpPool, MaxPatchLen) : s # <<>>}
         /\ route \in Routes
+        /\ built = IF route = "builder" THEN 0 ELSE Len(patch)
         /\ hist = <<>>
 
+AddOp == /\ Len(hist) < MaxActs
+         /\ built < Len(patch)
+         /\ built' = built + 1
+         /\ hist' = Append(hist, [act |-> "build", n |-> built + 1, doc |-> Null, result |-> Null])
+         /\ UNCHANGED <<patch, route>>
 Apply(d) == /\ Len(hist) < MaxActs
-            /\ hist' = Append(hist, [act |-> "apply", doc |-> d, result |-> ApplyAll(d, patch)])
-            /\ UNCHANGED <<patch, route>>
+            /\ hist' = Append(hist, [act |-> "apply", n |-> built, doc |-> d, result |-> ApplyAll(d, Cur)])
+            /\ UNCHANGED <<patch, route, built>>
 AsDicts == /\ Len(hist) < MaxActs
-           /\ hist' = Append(hist, [act |-> "asdicts", doc |-> Null, result |-> Null])
-           /\ UNCHANGED <<patch, route>>
-Next == (\E d \in Docs : Apply(d)) \/ AsDicts
-NextSim == \E c \in {RandomElement(1..4)} : IF c = 1 THEN AsDicts ELSE \E d \in {RandomElement(Docs)} : Apply(d)
+           /\ hist' = Append(hist, [act |-> "asdicts", n |-> built, doc |-> Null, result |-> Null])
+           /\ UNCHANGED <<patch, route, built>>
+Next == (\E d \in Docs : Apply(d)) \/ AsDicts \/ AddOp
+NextSim == \E c \in {RandomElement(1..5)} :
+             IF c = 1 THEN AsDicts
+             ELSE IF c = 2 /\ built < Len(patch) THEN AddOp
+             ELSE \E d \in {RandomElement(Docs)} : Apply(d)
 Spec == Init /\ [][Next]_vars
 
 \* ---- properties -------------------------------------------------------------
-PatchNeverChanges == [][patch' = patch]_vars
+\* only a builder call changes the patch: applying or printing it never does
+PatchNeverChanges == [][(built' # built \/ patch' # patch) => (patch' = patch /\ hist'[Len(hist')].act = "build")]_vars
 \* equal documents, equal results - whatever happened in between
 Repeatable == \A i, j \in 1..Len(hist) :
-                (hist[i].act = "apply" /\ hist[j].act = "apply" /\ hist[i].doc = hist[j].doc) => hist[i].result = hist[j].result
+                (hist[i].act = "apply" /\ hist[j].act = "apply" /\ hist[i].doc = hist[j].doc /\ hist[i].n = hist[j].n) => hist[i].result = hist[j].result
 \* addne / addap differ from add only as documented
 AddVariants ==
   \A d \in Docs : \A op \in {o \in OpPool : o.op \in {"addne", "addap"}} :
